@@ -987,12 +987,23 @@ def fbits(t, fexpr):
     return '(uint64_t)%s(%s)' % ('spec_f2u' if t.bits == 32 else 'spec_d2u', fexpr)
 
 
+def old_fval(t, e, i):
+    """float value of lane i of e in the pre-state (__CPROVER_old applied to the stored object only)"""
+    if t.repr in ('m128', 'm256', 'm512'):
+        return '%s(%s)' % ('avm_u2f' if t.bits == 32 else 'avm_u2d', OLD('AVM_L%d((%s).content, %d)' % (t.bits, e, i)))
+    return OLD('(%s).content' % e)
+
+
+def old_fbits(t, e, i):
+    if t.repr in ('m128', 'm256', 'm512'):
+        return '(uint64_t)' + OLD('AVM_L%d((%s).content, %d)' % (t.bits, e, i))
+    return '(uint64_t)%s(%s)' % ('avm_f2u' if t.bits == 32 else 'avm_d2u', OLD('(%s).content' % e))
+
+
 def fop(t, op, x, y):
     """float operation in the spec: + and - in CBMC's IEEE theory; * and / through the same macro as the extracted code and
     the instruction models (an uninterpreted FPU operation in the C10 routing proofs)"""
-    if op in '*/':
-        return 'AVM_%s_f%d(%s, %s)' % ('FMUL' if op == '*' else 'FDIV', t.bits, x, y)
-    return '%s %s %s' % (x, op, y)
+    return 'AVM_%s_f%d(%s, %s)' % ({'*': 'FMUL', '/': 'FDIV', '+': 'FADD', '-': 'FSUB'}[op], t.bits, x, y)
 
 
 FARITH = {'operator+=': '+', 'operator-=': '-', 'operator*=': '*', 'operator/=': '/'}
@@ -1008,12 +1019,11 @@ def f_float_arith(c):
             op = FARITH[c.name]
             ens = []
             for i in range(t.W):
-                exp = fbits(t, fop(t, op, ('avm_u2f' if t.bits == 32 else 'avm_u2d') + '(' + OLD(t.lane(this, i).replace('(uint64_t)', '', 1)) + ')', fval(t, c.a(0), i)))
+                exp = fbits(t, fop(t, op, old_fval(t, this, i), fval(t, c.a(0), i)))
                 ens.append(('float %s lane %d' % (c.name, i), same_bits(t, t.lane(this, i), exp)))
             ens.append(('returns *this', '%s == this' % RV))
             k = Contract('float_' + c.name, ['C10'], ensures=ens, assigns=['*this'], cxx='({this} %s= {0})' % op, setup=RM_SETUP)
-            if op in '*/':
-                k.defines = ['AVM_FP_UF']
+            k.defines = ['AVM_FP_UF']
             return k
         if c.name == 'operator-' and len(c.P) == 0 and c.RT.ct == t.ct:
             sb = '0x80000000ull' if t.bits == 32 else '0x8000000000000000ull'
@@ -1024,14 +1034,16 @@ def f_float_arith(c):
             one = '1.0f' if t.bits == 32 else '1.0'
             ens = []
             for i in range(t.W):
-                oldv = ('avm_u2f' if t.bits == 32 else 'avm_u2d') + '(' + OLD(t.lane(this, i).replace('(uint64_t)', '', 1)) + ')'
-                ens.append(('float %s lane %d' % (c.name, i), same_bits(t, t.lane(this, i), fbits(t, '%s %s %s' % (oldv, op, one)))))
+                oldv = old_fval(t, this, i)
+                ens.append(('float %s lane %d' % (c.name, i), same_bits(t, t.lane(this, i), fbits(t, fop(t, op, oldv, one)))))
                 if c.P:
-                    ens.append(('post-form returns the old value lane %d' % i, '%s == %s' % (t.lane(RV, i), OLD(t.lane(this, i).replace('(uint64_t)', '', 1)))))
+                    ens.append(('post-form returns the old value lane %d' % i, '%s == %s' % (t.lane(RV, i), old_fbits(t, this, i))))
             if not c.P:
                 ens.append(('pre-form returns *this', '%s == this' % RV))
-            return Contract('float_' + c.name + ('_post' if c.P else '_pre'), ['C10'], ensures=ens, assigns=['*this'],
-                            cxx=('({this}%s)' if c.P else '(%s{this})') % c.name[-2:], setup=RM_SETUP)
+            k = Contract('float_' + c.name + ('_post' if c.P else '_pre'), ['C10'], ensures=ens, assigns=['*this'],
+                         cxx=('({this}%s)' if c.P else '(%s{this})') % c.name[-2:], setup=RM_SETUP)
+            k.defines = ['AVM_FP_UF']
+            return k
         return None
     if c.kind != 'function' or not c.P:
         return None
@@ -1045,8 +1057,7 @@ def f_float_arith(c):
         op = FARITH_BIN[nm]
         ens = [('float %s lane %d' % (nm, i), same_bits(t, t.lane(RV, i), fbits(t, fop(t, op, fval(t, a0, i), fval(t, c.a(1), i))))) for i in range(t.W)]
         k = Contract('float_' + nm, ['C10'], ensures=ens, cxx='({0} %s {1})' % op, setup=RM_SETUP)
-        if op in '*/':
-            k.defines = ['AVM_FP_UF']
+        k.defines = ['AVM_FP_UF']
         return k
     if nm == 'sqrt' and len(c.P) == 1 and c.RT.ct == t.ct:
         fn = 'avm_sqrtf' if t.bits == 32 else 'avm_sqrt'
